@@ -63,6 +63,10 @@ func init() {
 			k.POverUnity = 5
 			k.PWeirdAccount = 2
 			ec = gen.NewTG(t, k).Case()
+			// a second `remaining` clause (grammatical, refused only by the static checker)
+			if gen.Chance(t, "c12.dupremaining", 15) {
+				dupRemaining(t, ec.Script)
+			}
 		}
 		// arbitrary variable texts: either every variable is up for grabs, or (light mode)
 		// only one of them, so that execution gets further before anything goes wrong
@@ -449,3 +453,82 @@ func checkC12C(c any) *ev.Verdict {
 }
 
 var _ = big.NewInt
+
+
+// dupRemaining inserts a copy of the `remaining` item of one allotment (source or
+// destination) at another position of the same allotment.
+func dupRemaining(t *rapid.T, s *gen.Script) {
+	var srcs []*gen.Src
+	var dsts []*gen.Dst
+	var walkS func(x *gen.Src)
+	var walkD func(x *gen.Dst)
+	walkK := func(k *gen.KOD) {
+		if k != nil && !k.Kept {
+			walkD(k.Dst)
+		}
+	}
+	walkS = func(x *gen.Src) {
+		if x == nil {
+			return
+		}
+		for _, c := range x.Subs {
+			walkS(c)
+		}
+		for i := range x.Items {
+			if x.Items[i].Portion.Kind == gen.ARemaining {
+				srcs = append(srcs, x)
+			}
+			walkS(x.Items[i].From)
+		}
+		walkS(x.From)
+	}
+	walkD = func(x *gen.Dst) {
+		if x == nil {
+			return
+		}
+		for i := range x.Clauses {
+			walkK(&x.Clauses[i].To)
+		}
+		walkK(x.Remaining)
+		for i := range x.Items {
+			if x.Items[i].Portion.Kind == gen.ARemaining {
+				dsts = append(dsts, x)
+			}
+			walkK(&x.Items[i].To)
+		}
+	}
+	for _, st := range s.Stmts {
+		if st.Kind == gen.StSend {
+			walkS(st.Src)
+			walkD(st.Dst)
+		}
+	}
+	n := len(srcs) + len(dsts)
+	if n == 0 {
+		return
+	}
+	k := gen.Uniform(t, "c12.dupremaining.which", n)
+	if k < len(srcs) {
+		x := srcs[k]
+		for i := range x.Items {
+			if x.Items[i].Portion.Kind == gen.ARemaining {
+				at := gen.Uniform(t, "c12.dupremaining.at", len(x.Items)+1)
+				items := append([]gen.SrcItem{}, x.Items[:at]...)
+				items = append(items, x.Items[i])
+				x.Items = append(items, x.Items[at:]...)
+				return
+			}
+		}
+		return
+	}
+	x := dsts[k-len(srcs)]
+	for i := range x.Items {
+		if x.Items[i].Portion.Kind == gen.ARemaining {
+			at := gen.Uniform(t, "c12.dupremaining.at", len(x.Items)+1)
+			items := append([]gen.DstItem{}, x.Items[:at]...)
+			items = append(items, x.Items[i])
+			x.Items = append(items, x.Items[at:]...)
+			return
+		}
+	}
+}
